@@ -3,10 +3,13 @@
 package main
 
 import (
+	"bytes"
 	"encoding/json"
 	"strings"
 	"time"
 
+	"servitor/ansi"
+	"servitor/mime"
 	"servitor/object"
 	"servitor/pub"
 )
@@ -15,7 +18,99 @@ type mediaer interface {
 	Media() (string, interface{ Matches([]string) bool }, bool)
 }
 
+func putSel(out []int, link string, essence string, present bool) []int {
+	out = append(out, b2i(present))
+	out = putText(out, link)
+	return putText(out, essence)
+}
+
 func init() {
+	// itemx: a post (0) or an actor (1) built from JSON, rendered by every method, WITH the fields its constructor stored
+	// (lib line) so that the rendering model can be run on them.  args: json, ctor, widths, numbers
+	register("itemx", func(a []int) []int {
+		r := &reader{toks: a}
+		doc := r.text()
+		ctor := r.next()
+		widths := r.list()
+		numbers := r.list()
+		var m map[string]any
+		if err := json.NewDecoder(strings.NewReader(doc)).Decode(&m); err != nil || m == nil {
+			return []int{-1}
+		}
+		o := object.Object(m)
+		out := []int{}
+		essenceOf := func(mt *mime.MediaType) string {
+			if mt == nil {
+				return ""
+			}
+			return mt.Essence
+		}
+		bodyKey := "content"
+		if ctor == 1 {
+			bodyKey = "summary"
+		}
+		dumpBody := func() {
+			if raw, ok := m[bodyKey].(string); ok {
+				content := ansi.Scrub(raw)
+				kind := 1
+				if mt, ok := m["mediaType"].(string); ok && strings.SplitN(ansi.Scrub(mt), ";", 2)[0] == "text/markdown" {
+					kind = 3
+				}
+				if kind == 3 {
+					var buf bytes.Buffer
+					if e := mdRenderer.Convert([]byte(content), &buf); e != nil {
+						emitLib(-1)
+					} else {
+						dumpFragment(buf.String())
+					}
+				} else {
+					dumpFragment(content)
+				}
+			} else {
+				emitLib(0)
+			}
+		}
+		if ctor == 0 {
+			p, err := pub.NewPostFromObject(o, nil)
+			if err != nil {
+				return []int{1}
+			}
+			emitLib(pub.VerifDumpPost(p)...)
+			dumpBody()
+			out = putText([]int{0}, p.Name())
+			for _, w := range widths {
+				out = putText(out, p.String(w))
+				out = putText(out, p.Preview(w))
+			}
+			for _, k := range numbers {
+				l, mt, ok := p.SelectLink(k)
+				out = putSel(out, l, essenceOf(mt), ok)
+			}
+			l, mt, ok := p.Media()
+			out = putSel(out, l, essenceOf(mt), ok)
+			return out
+		}
+		x, err := pub.NewActorFromObject(o, nil)
+		if err != nil {
+			return []int{1}
+		}
+		emitLib(pub.VerifDumpActor(x)...)
+		dumpBody()
+		out = putText([]int{0}, x.Name())
+		for _, w := range widths {
+			out = putText(out, x.String(w))
+			out = putText(out, x.Preview(w))
+		}
+		for _, k := range numbers {
+			l, mt, ok := x.SelectLink(k)
+			out = putSel(out, l, essenceOf(mt), ok)
+		}
+		l, mt, ok := x.ProfilePic()
+		out = putSel(out, l, essenceOf(mt), ok)
+		l, mt, ok = x.Banner()
+		out = putSel(out, l, essenceOf(mt), ok)
+		return out
+	})
 	// args: json text, constructor (0 post, 1 actor, 2 activity, 3 collection, 4 link, 5 pub.New), widths, link numbers
 	// result: built(0 ok / 1 construction refused), elapsed ms of the slowest call, ntexts texts..., nsel (k present link)...
 	register("item", func(a []int) []int {
